@@ -10,9 +10,12 @@ Where things are:
   ConnC04Inv3.lean   state preservation, quiet/loud stanza names, the branches of `_handle_sm`
   ConnC04Inv4.lean   `B`: disconnected ⇒ stream management off; consecutive numbers unless an answer is pending
   ConnC04Inv5.lean   `Rel`: nothing retained is lost
+  ConnC04Inv6–9.lean `Tk`: at most one step of the negotiation is pending, none while stream management is on
+  ConnC04Inv10.lean  `QO`: library elements are queued in the XEP-0198 class; only user items are counted
+  ConnC04Inv11–12.lean `Rs`: `_sm_enable` is not reached while a session id is held or a resumption is possible
 -/
 import Strophe.Lemmas.ConnC04Inv1
-import Strophe.Lemmas.ConnC04Inv5
+import Strophe.Lemmas.ConnC04Inv12
 
 namespace Strophe.Lemmas.ConnC04
 open Strophe Strophe.Conn
@@ -23,8 +26,22 @@ open Strophe Strophe.Conn
     error or stream header/trailer is counted (the server does not count them either) -/
 theorem only_user_stanzas_numbered (jid pass : Option Bytes) (cert : Bool) (flags : Nat)
     (ops : List Op) (hu : userOps ops) :
-    ∀ r ∈ (exec (fresh jid pass cert flags) ops).tx, r.smNum.isSome = true → r.item.isUserItem = true := by
-  sorry
+    ∀ r ∈ (exec (fresh jid pass cert flags) ops).tx, r.smNum.isSome = true → r.item.isUserItem = true :=
+  (TJ_reach jid pass cert flags ops hu).2.t
+
+/-- what is retained is what the user submitted (in particular no `<r/>`: the hypothesis `hq` of
+    `resumed_retransmits_exactly` and `enabled_resends_all` holds in every reachable state) -/
+theorem retained_are_user_items (jid pass : Option Bytes) (cert : Bool) (flags : Nat)
+    (ops : List Op) (hu : userOps ops) :
+    ∀ x ∈ (exec (fresh jid pass cert flags) ops).sm.queue, x.2.item.isUserItem = true :=
+  (TJ_reach jid pass cert flags ops hu).2.s
+
+theorem retained_are_no_requests (jid pass : Option Bytes) (cert : Bool) (flags : Nat)
+    (ops : List Op) (hu : userOps ops) :
+    ∀ x ∈ (exec (fresh jid pass cert flags) ops).sm.queue, x.2.item ≠ .req := by
+  intro x hx he
+  have := retained_are_user_items jid pass cert flags ops hu x hx
+  rw [he] at this; cases this
 
 /-- on a session whose `<enable/>` / `<resume/>` has been answered, the retained numbers are
     consecutive and end at `sentNr - 1` -/
@@ -33,12 +50,19 @@ theorem contiguous_numbers (jid pass : Option Bytes) (cert : Bool) (flags : Nat)
     c.sm.enabled = true → smPending c = false → Contig c.sm :=
   fun he hp => (K_reach jid pass cert flags ops).2.contig he hp
 
-/-- … and also while a resumable session waits for its resumption (disconnected, reconnecting,
-    `<resume/>` sent) -/
+/-- … and also while a session id is held or a resumable session waits for its resumption
+    (disconnected, reconnecting, `<resume/>` sent).
+
+    First formulation: `(c.sm.id.isSome ∨ c.sm.previd.isSome) → Contig c.sm`.  That is false: a previous
+    id alone does not make the session resumable.  `_handle_features_sasl` resumes only if it also
+    holds the bound JID of the old session (auth.c: `can_resume && previd && bound_jid`); otherwise it
+    binds again and `_sm_enable` restarts the numbering at 0 while the stale `previd` and the old
+    retained elements stay (they are all sent again when `<enabled/>` arrives, `enabled_resends_all`).
+    Counterexample: `Props/C04.lean`, `stale_previd_not_resumable`. -/
 theorem contiguous_while_resumable (jid pass : Option Bytes) (cert : Bool) (flags : Nat) (ops : List Op) :
     let c := exec (fresh jid pass cert flags) ops
-    (c.sm.id.isSome = true ∨ (c.sm.previd.isSome = true ∧ c.sm.boundJid.isSome = true)) → Contig c.sm := by
-  sorry
+    (c.sm.id.isSome = true ∨ (c.sm.previd.isSome = true ∧ c.sm.boundJid.isSome = true)) → Contig c.sm :=
+  fun hz => (TZ_reach jid pass cert flags ops).2.rz hz
 
 /-! ### retention -/
 
@@ -58,7 +82,12 @@ theorem retained_were_written (jid pass : Option Bytes) (cert : Bool) (flags : N
     but a non-empty retained queue, and a `_handle_features` handler registered without its name
     filter next to the pending XEP-0198 handler (it disconnects in the middle of the dispatch of
     `<resumed/>`, after which `_sm_queue_resend` drops everything).  `retained_only_released_by_h_step`
-    is the step-level form under the well-formedness hypotheses that exclude them. -/
+    is the step-level form under the well-formedness hypotheses that exclude them.
+
+    KNOWN FINDING D52 lives in the third alternative: an element put back into the send queue is no
+    longer retained, and the send queue is emptied by `_conn_reset` at the next connect.  "An
+    unacknowledged written stanza is always retained or queued for retransmission" therefore holds
+    only up to the next `connReset` (witness: `Props/C04.lean`, `resend_lost_on_second_loss`). -/
 theorem retained_only_released_by_h (jid pass : Option Bytes) (cert : Bool) (flags : Nat) (ops : List Op)
     (op : Op) (x : UInt32 × QElem) :
     let c := exec (fresh jid pass cert flags) ops
